@@ -222,6 +222,8 @@ def _getTextType(text, log=None):
     """Check if given text is XML (**naive test!**)
     used if no content-type given
     """
+    if isinstance(text, bytes):
+        text = text[:30].decode('latin-1')
     if text[:30].find('<?xml version=') != -1:
         return _XML_APPLICATION_TYPE
     else:
@@ -298,9 +300,13 @@ def getMetaInfo(text, log=None):
     """
     p = _MetaHTMLParser()
 
+    if isinstance(text, bytes):
+        # sniffing works on characters; latin-1 maps every byte to one
+        text = text.decode('latin-1')
+
     try:
         p.feed(text)
-    except html.parser.HTMLParseError:
+    except getattr(html.parser, 'HTMLParseError', ()):  # removed in Python 3.5
         pass
 
     if p.content_type:
@@ -342,6 +348,9 @@ def detectXMLEncoding(fp, log=None, includeDefault=True):  # noqa: C901
         - if BOM and xml declaration fail, utf-8 is returned according
           to XML 1.0.
     """
+    if isinstance(fp, bytes):
+        # sniffing works on characters; latin-1 maps every byte to one
+        fp = fp.decode('latin-1')
     if isinstance(fp, str):
         fp = io.StringIO(fp)
 
